@@ -14,6 +14,10 @@
 #include <memory>
 #include "givinteger.h"
 #include "montgomery-int32.h"
+#include "modular.h"
+#include <signal.h>
+#include <sys/time.h>
+#include <unistd.h>
 
 using namespace Givaro;
 typedef Montgomery<int32_t> Field;
@@ -59,6 +63,47 @@ static uint64_t binv_of(uint64_t p) {          // brute force: the x in [0,p) wi
 }
 static uint64_t gcd64(uint64_t a, uint64_t b) { while (b) { uint64_t t = a % b; a = b; b = t; } return a; }
 
+// per-request CPU-time watchdog (CPU time does not depend on the machine load): a call that does not return within the budget
+// ends the process with the marker line below; the check re-runs that one request alone with a larger budget
+static void on_prof(int) { const char m[] = "WATCHDOG does-not-return\n"; ssize_t r = write(1, m, sizeof(m) - 1); (void)r; _exit(75); }
+static void arm(long sec) { struct itimerval it; it.it_interval.tv_sec = 0; it.it_interval.tv_usec = 0; it.it_value.tv_sec = sec; it.it_value.tv_usec = 0; setitimer(ITIMER_PROF, &it, 0); }
+static long env_long(const char* n, long d) { const char* e = getenv(n); return e ? atol(e) : d; }
+
+// the library's NON-Montgomery ring of the same element type: Montgomery<int32_t> must be indistinguishable from it
+typedef Modular<int32_t> Plain;
+// vsmod.<op>: both rings initialised from the same residues x, y, z in [0,p), the operation, both results converted out
+static bool vsmod(const std::string& op, const Open& F, uint32_t p, uint32_t x, uint32_t y, uint32_t z, uint32_t& mo, uint32_t& po) {
+    Plain Z((int32_t)p);
+    Elt a, b, c, r; F.init(a, x); F.init(b, y); F.init(c, z); r = c;
+    Plain::Element A, B, C, R; Z.init(A, x); Z.init(B, y); Z.init(C, z); R = C;
+    if (op == "add") { F.add(r, a, b); Z.add(R, A, B); }
+    else if (op == "sub") { F.sub(r, a, b); Z.sub(R, A, B); }
+    else if (op == "mul") { F.mul(r, a, b); Z.mul(R, A, B); }
+    else if (op == "neg") { F.neg(r, a); Z.neg(R, A); }
+    else if (op == "inv") { F.inv(r, a); Z.inv(R, A); }
+    else if (op == "div") { F.div(r, a, b); Z.div(R, A, B); }
+    else if (op == "addin") { r = a; R = A; F.addin(r, b); Z.addin(R, B); }
+    else if (op == "subin") { r = a; R = A; F.subin(r, b); Z.subin(R, B); }
+    else if (op == "mulin") { r = a; R = A; F.mulin(r, b); Z.mulin(R, B); }
+    else if (op == "negin") { r = a; R = A; F.negin(r); Z.negin(R); }
+    else if (op == "invin") { r = a; R = A; F.invin(r); Z.invin(R); }
+    else if (op == "divin") { r = a; R = A; F.divin(r, b); Z.divin(R, B); }
+    else if (op == "axpy") { F.axpy(r, a, b, c); Z.axpy(R, A, B, C); }
+    else if (op == "axmy") { F.axmy(r, a, b, c); Z.axmy(R, A, B, C); }
+    else if (op == "maxpy") { F.maxpy(r, a, b, c); Z.maxpy(R, A, B, C); }
+    else if (op == "axpyin") { F.axpyin(r, a, b); Z.axpyin(R, A, B); }
+    else if (op == "axmyin") { F.axmyin(r, a, b); Z.axmyin(R, A, B); }
+    else if (op == "maxpyin") { F.maxpyin(r, a, b); Z.maxpyin(R, A, B); }
+    else if (op == "isZero") { F.mul(r, a, b); Z.mul(R, A, B); mo = F.isZero(r); po = Z.isZero(R); return true; }
+    else if (op == "areEqual") { F.add(r, a, b); Z.add(R, A, B); mo = F.areEqual(r, c); po = Z.areEqual(R, C); return true; }
+    else if (op == "isUnit") { mo = F.isUnit(a); po = Z.isUnit(A); return true; }
+    else return false;
+    F.convert(mo, r); Z.convert(po, R);
+    return true;
+}
+static const char* VSMOD_BIN[] = {"add", "sub", "mul", "addin", "subin", "mulin", "isZero"};
+static const char* VSMOD_TER[] = {"axpy", "axmy", "maxpy", "axpyin", "axmyin", "maxpyin", "areEqual"};
+
 struct Fail { std::ostringstream s; bool bad = false; uint64_t n = 0; };
 #define CHECK(F_, name, got, exp, a, b, c) do { (F_).n++; if ((uint64_t)(got) != (uint64_t)(exp) && !(F_).bad) { \
     (F_).bad = true; (F_).s << "FAIL " << name << " " << p << " " << (a) << " " << (b) << " " << (c) << " got " << (got) << " exp " << (exp); } } while (0)
@@ -80,7 +125,9 @@ static void check_ops(Fail& f, const Open& F, uint64_t p, uint64_t Bi, uint32_t 
     r = b; CHECK(f, "add.rar", F.add(r, a, r), ((uint64_t)a + b) % p, a, b, 0);
     r = a; CHECK(f, "sub.rra", F.sub(r, r, b), ((uint64_t)a + p - b) % p, a, b, 0);
     r = b; CHECK(f, "sub.rar", F.sub(r, a, r), ((uint64_t)a + p - b) % p, a, b, 0);
+    { uint32_t mo, po; for (const char* op : VSMOD_BIN) { vsmod(op, F, (uint32_t)p, a, b, c, mo, po); CHECK(f, std::string("vsmod.") + op, mo, po, a, b, c); } }
     if (!ternary) return;
+    { uint32_t mo, po; for (const char* op : VSMOD_TER) { vsmod(op, F, (uint32_t)p, a, b, c, mo, po); CHECK(f, std::string("vsmod.") + op, mo, po, a, b, c); } }
     r = a; CHECK(f, "axpy.ra", F.axpy(r, r, b, c), (ab + c) % p, a, b, c);
     r = b; CHECK(f, "axpy.rb", F.axpy(r, a, r, c), (ab + c) % p, a, b, c);
     r = c; CHECK(f, "axpy.rc", F.axpy(r, a, b, r), (ab + c) % p, a, b, c);
@@ -135,7 +182,16 @@ static void check_unary(Fail& f, const Open& F, uint64_t p, uint64_t Bi, uint32_
         CHECK(f, "div.rar", q, B32 % p, a, a, c);
         r = a; F.inv(r, r);
         CHECK(f, "inv.rr", (uint64_t)(r < p ? (uint64_t)r * Bi % p * va % p : 99), 1 % p, a, b, c);
+        uint32_t mo, po;                                       // against the library's plain ring, a taken as a residue
+        vsmod("inv", F, (uint32_t)p, a, a, 0, mo, po); CHECK(f, "vsmod.inv", mo, po, a, b, c);
+        vsmod("div", F, (uint32_t)p, (uint32_t)((a + 1) % p), a, 0, mo, po); CHECK(f, "vsmod.div", mo, po, (a + 1) % p, a, c);
+    } else if (with_inv) {                                     // non-units and 0: the result must still be a residue (theorem M32_inv_div_any)
+        F.inv(r, a); CHECK(f, "inv.nonunit.canon", (uint64_t)(r < p), 1, a, b, c);
+        Elt q; F.div(q, (Elt)((a + 1) % p), a); CHECK(f, "div.nonunit.canon", (uint64_t)(q < p), 1, (a + 1) % p, a, c);
+        if (a == 0) CHECK(f, "inv.zero", r, 0, a, b, c);
     }
+    { uint32_t mo, po; vsmod("neg", F, (uint32_t)p, a, 0, 0, mo, po); CHECK(f, "vsmod.neg", mo, po, a, b, c);
+      vsmod("isUnit", F, (uint32_t)p, a, 0, 0, mo, po); CHECK(f, "vsmod.isUnit", mo, po, a, b, c); }
 }
 static void check_ctor(Fail& f, const Open& F, uint64_t p) {
     uint64_t Bp = B32 % p, a = 0, b = 0, c = 0;
@@ -170,10 +226,13 @@ int main(int argc, char** argv) {
         return 0;
     }
     std::string line;
+    signal(SIGPROF, on_prof);
+    const long budget = env_long("C07_CPU_BUDGET", 60), budget_sweep = env_long("C07_CPU_BUDGET_SWEEP", 7200);
     while (std::getline(std::cin, line)) {
         std::istringstream in(line);
         std::string v; uint64_t p;
         if (!(in >> v >> p)) continue;
+        arm(v.compare(0, 6, "sweep.") == 0 ? budget_sweep : budget);
         std::ostringstream out;
         if (v.compare(0, 6, "sweep.") == 0) {
             Fail f;
@@ -213,13 +272,14 @@ int main(int argc, char** argv) {
                     CHECK(f, "redcin", F.x_redcin(cc), e, c, 0, 0); CHECK(f, "redcsin", F.x_redcsin(cc), e, c, 0, 0);
                 }
             }
-            if (f.bad) std::cout << f.s.str() << "\n"; else std::cout << "OK " << f.n << "\n";
+            arm(0);
+            if (f.bad) std::cout << f.s.str() << "\n" << std::flush; else std::cout << "OK " << f.n << "\n" << std::flush;
             continue;
         }
         std::string how;
         if (!v.empty() && v[0] == '@') { size_t c = v.find(':'); how = v.substr(1, c - 1); v = v.substr(c + 1); }
         std::unique_ptr<Open> FP(obtain(how, (uint32_t)p));
-        if (!FP) { std::cout << "UNKNOWN-WAY\n"; continue; }
+        if (!FP) { arm(0); std::cout << "UNKNOWN-WAY\n" << std::flush; continue; }
         Open& F = *FP;
         std::vector<std::string> a; std::string t; while (in >> t) a.push_back(t);
         auto U = [&](size_t i) -> uint32_t { return (uint32_t)std::strtoull(a.at(i).c_str(), 0, 10); };
@@ -239,6 +299,11 @@ int main(int argc, char** argv) {
         else if (v == "redcs") { out << F.x_redcs(U(0)); haveElt = false; }
         else if (v == "redcin") { out << F.x_redcin(U(0)); haveElt = false; }
         else if (v == "redcsin") { out << F.x_redcsin(U(0)); haveElt = false; }
+        else if (v.compare(0, 6, "vsmod.") == 0) {
+            uint32_t mo = 0, po = 0; uint32_t z = a.size() > 2 ? U(2) : 0, y = a.size() > 1 ? U(1) : 0;
+            if (vsmod(v.substr(6), F, (uint32_t)p, U(0), y, z, mo, po)) out << mo << " " << po; else out << "UNKNOWN-VARIANT";
+            haveElt = false;
+        }
         else if (v == "mul.rra") { r = U(0); F.mul(r, r, U(1)); }
         else if (v == "mul.rar") { r = U(1); F.mul(r, U(0), r); }
         else if (v == "add.rra") { r = U(0); F.add(r, r, U(1)); }
@@ -304,7 +369,8 @@ int main(int argc, char** argv) {
         else if (v == "areEqual") { out << F.areEqual(U(0), U(1)); haveElt = false; }
         else { out << "UNKNOWN-VARIANT"; haveElt = false; }
         if (haveElt) { uint32_t x; out << r << " " << F.convert(x, r); }
-        std::cout << out.str() << "\n";
+        arm(0);
+        std::cout << out.str() << "\n" << std::flush;
     }
     return 0;
 }
